@@ -6,6 +6,7 @@ from harness.impl import E_POOL
 ID = 'C09'
 MASK = X.M_RESULTS | X.M_LISTS | X.M_STATES
 ASSUMPTIONS = ['container ids are renumbered by creation order']
+from fractions import Fraction as F
 
 
 def monitor(run):
@@ -76,6 +77,13 @@ def monitor(run):
                     yield (f'tick {t}: container {c["cid"]} holds operators {c["ops"]}, the accepted assignment listed '
                            f'{want} (a container runs exactly the operators of its assignment, in that order)')
             for c in p['active']:
+                d = e.get('demand', {}).get(c['cid'])
+                ram = run.info.get(c['cid'], {}).get('ram')
+                if d is not None and ram is not None and F(d) > F(ram):
+                    yield (f'tick {t}: container {c["cid"]} demands {float(F(d))} GB, above its allocation {float(F(ram))} GB, '
+                           f'and is still running after the tick: a container over its limit ends (OOM) in that tick, '
+                           f'frozen like this it never reaches an outcome')
+            for c in p['active']:
                 if c['completed']:
                     yield (f'tick {t}: container {c["cid"]} is finished but still sits in the running list: '
                            f'no result was delivered for it')
@@ -109,6 +117,7 @@ def run(ctx):
         ('G-exec-over', 120, 2000, dict(overcommit=True)),
         ('G-exec-overlap', 40, 600, dict(overlap=True)),
         ('G-exec-burst', 60, 1000, dict(burst=True)),
+        ('G-exec-waves', 60, 1000, dict(waves=True)),
         ('G-exec-badpool', 60, 1000, dict(p_bad=1.0, bad_kinds=['asg-pool', 'susp-badpool'], bad_early=False)),
     ], nontrivial=lambda run: any(e.get('results') for e in run.trace))
     out['rule'] = ('G-exec command fuzzer (see C03) incl. simultaneous completions, kills and suspensions and commands with '
